@@ -25,10 +25,13 @@ var (
 )
 
 func runAnalyzer(pass *analysis.Pass) (interface{}, error) {
+	verifPass("PassEnter", pass)
 	critic, err := prepareGocritic()
 	if err != nil {
+		verifPass("PassReturnInitErr", pass)
 		return nil, fmt.Errorf("init error: %w", err)
 	}
+	verifPass("PassPrepared", pass)
 
 	ctx := linter.NewContext(pass.Fset, pass.TypesSizes)
 	ctx.GoVersion = critic.goVersion
@@ -36,6 +39,7 @@ func runAnalyzer(pass *analysis.Pass) (interface{}, error) {
 
 	checkers, err := critic.createCheckers(ctx)
 	if err != nil {
+		verifPass("PassReturnCreateErr", pass)
 		return nil, err
 	}
 
@@ -51,6 +55,7 @@ func runAnalyzer(pass *analysis.Pass) (interface{}, error) {
 		}
 	}
 
+	verifPass("PassReturnOK", pass)
 	return nil, nil
 }
 
@@ -89,19 +94,23 @@ func prepareGocritic() (*gocritic, error) {
 
 	// Don't report init error ever again if it was already reported.
 	if globalInitErrorReported {
+		verifPrep("LatchHit")
 		return nil, nil
 	}
 
 	if globalGocritic != nil {
+		verifPrep("CacheHit")
 		return globalGocritic, nil
 	}
 
 	critic, err := newGocritic()
 	if err != nil {
 		globalInitErrorReported = true
+		verifPrep("InitFail")
 		return nil, err
 	}
 	globalGocritic = critic
+	verifPrep("InitOK")
 	return critic, nil
 }
 
